@@ -43,7 +43,10 @@ def base_docs():
         T.A("last", i(10)),
     ]
     dup = [T.A("k", i(1)), T.A("k", i(2)), T.B("Group", "k", [T.A("k", i(3))], end="End_Group"), T.A("k", ("u", "v"))]
-    return [("flat", flat), ("nested", nested), ("duplicate-names", dup)]
+    u = lambda t: ("u", t)            # noqa: E731
+    dupblock = [T.A("NOTE", u("first")), T.A("NOTE", u("second")), T.A("TARGET", u("MARS")),
+                T.B("GROUP", "g", [T.A("NOTE", u("a")), T.A("NOTE", u("b")), T.A("NOTE", u("c")), T.A("TARGET", u("x"))])]
+    return [("flat", flat), ("nested", nested), ("duplicate-names", dup), ("duplicates-in-one-block", dupblock)]
 
 
 def assign_paths(stmts, prefix=()):
@@ -58,9 +61,19 @@ def assign_paths(stmts, prefix=()):
 # line styles
 # ---------------------------------------------------------------------------------------
 BASELINE = {"eol": "\n", "indent": "  ", "delim": False, "comment": None, "blank": False, "eq": "spaced", "value_next_line": False,
-            "end": "END-nl", "dash": False, "lead": "", "mlc": False, "strict": True}
+            "end": "END-nl", "dash": False, "lead": "", "mlc": False, "strict": True, "between": ""}
 FEATURES = {
     "crlf": {"eol": "\r\n"},
+    "ff-as-line-end": {"eol": "\f"},            # only "\n" is a line break: every '=' stays on its "\n"-counted line
+    "vt-as-line-end": {"eol": "\v"},
+    "cr-as-line-end": {"eol": "\r"},
+    "ff-between-statements": {"between": "\f"},
+    "vt-between-statements": {"between": "\v"},
+    "cr-between-statements": {"between": "\r"},
+    "equals-first-on-line": {"eq": "firstcol"},
+    "ff-before-equals": {"eq": "\f"},
+    "vt-before-equals": {"eq": "\v"},
+    "cr-before-equals": {"eq": "\r"},
     "semicolon": {"delim": True},
     "comment-trailing": {"comment": ("trail", "/* c */")},
     "comment-trailing-with-equals": {"comment": ("trail", "/* x = y */")},
@@ -82,9 +95,11 @@ FEATURES = {
     "leading-blank-lines": {"lead": "\n\n"},
     "multi-line-comment-earlier": {"mlc": True},
 }
-GROUPS = [("crlf",), ("semicolon",), ("comment-trailing", "comment-trailing-with-equals", "comment-between", "comment-with-equals-between",
+GROUPS = [("crlf", "ff-as-line-end", "vt-as-line-end", "cr-as-line-end"),
+          ("ff-between-statements", "vt-between-statements", "cr-between-statements"), ("semicolon",), ("comment-trailing", "comment-trailing-with-equals", "comment-between", "comment-with-equals-between",
                                      "hash-comment-between", "hash-comment-with-equals-between", "hash-comment-trailing-with-equals"),
-          ("blank-lines",), ("tight-equals", "equals-on-own-line"), ("value-on-next-line",),
+          ("blank-lines",), ("tight-equals", "equals-on-own-line", "equals-first-on-line", "ff-before-equals",
+                             "vt-before-equals", "cr-before-equals"), ("value-on-next-line",),
           ("no-END", "no-END-no-newline", "END-no-newline", "END-then-text"), ("dash-continuation-earlier",), ("no-indent",),
           ("leading-blank-lines",), ("multi-line-comment-earlier",)]
 
@@ -96,18 +111,26 @@ def style_of(features):
     return st
 
 
+def valid_combo(features):
+    """A '#' comment runs to the next "\n": it cannot be combined with a line end that has no "\n"."""
+    st = style_of(features)
+    return not (st["comment"] and st["comment"][1].startswith("#") and "\n" not in st["eol"])
+
+
 def all_combos():
     opts = [(None,) + g for g in GROUPS]
     for c in itertools.product(*opts):
-        yield tuple(f for f in c if f)
+        c = tuple(f for f in c if f)
+        if valid_combo(c):
+            yield c
 
 
 def random_combo(rng):
     out = []
     for g in GROUPS:
-        if rng.random() < 0.35:
+        if rng.random() < 0.3:
             out.append(rng.choice(g))
-    return tuple(out)
+    return tuple(out) if valid_combo(out) else ()
 
 
 # ---------------------------------------------------------------------------------------
@@ -168,6 +191,7 @@ def build(stmts, removed, features):
     for n, it in enumerate(items):
         if n:
             tx.add(eol)
+            tx.add(st["between"])
             if st["blank"]:
                 tx.add(eol)
             if st["comment"] and st["comment"][0] == "own":
@@ -182,6 +206,18 @@ def build(stmts, removed, features):
                 gap = ""
             elif st["eq"] == "ownline":
                 tx.add(eol + pad + "    ")
+                eq_line.append(tx.line)
+                tx.add("=")
+                gap = " "
+            elif st["eq"] == "firstcol":          # the '=' is the first character of its line
+                tx.add(eol)
+                eq_line.append(tx.line)
+                tx.add("=")
+                gap = " "
+                if gone:
+                    tx.add(" ")
+            elif st["eq"] in ("\f", "\v", "\r"):
+                tx.add(st["eq"])
                 eq_line.append(tx.line)
                 tx.add("=")
                 gap = " "
@@ -503,9 +539,11 @@ def sections(ctx):
     th = ctx.thorough
     t0 = time.time()
     s = Section("missing-values", "bounded", bounded=True,
-                rule="3 multi-line base labels (flat; nested group/object/inner group with named ends; duplicate names) x every subset "
+                rule="4 multi-line base labels (flat; nested group/object/inner group with named ends; duplicate names; duplicate names "
+                     "inside one block followed by other assignments) x every subset "
                      "of <= " + ("3" if th else "2 (3 in the baseline style)") + " assignments whose value is removed (top level, "
-                     "nested, first/last of a block, adjacent) x {baseline, 21 single style features: CRLF, ';', trailing/own-line "
+                     "nested, first/last of a block, adjacent) x {baseline, 31 single style features: CRLF, FF/VT/bare CR as line end, between "
+                     "statements and before '=', '=' as first character of its line, ';', trailing/own-line "
                      "'/* */' and '#' comments with and without '=', blank lines, tight '=', '=' on its own line, value on the next line, no END, "
                      "no final newline, text after END, dash continuation earlier, multi-line comment earlier...}; "
                      + ("1200 sampled style combinations x subsets <= 1; 6000" if th else "500") + " seeded random (subset, style "
